@@ -542,4 +542,47 @@ func e2eCases(cf *lib.CaseFile, rng *lib.Rng, f lib.Flags) {
 			cf.Count("e2e_native_query_failed")
 		}
 	}
+
+	// the plugin table below a correlated subquery / lookup join: one materialized plugin datasource is Run once per
+	// outer record, each time with that record in the execution variable context, and its pushed-down predicate reads
+	// the outer variable. Outer file: 4..6 rows, at least three distinct keys that occur in the inner table.
+	for i, m := 0, f.Cases(6, 24); i < m; i++ {
+		r := rng.Fork()
+		ref := genNumbersRef(r)
+		var outer strings.Builder
+		outer.WriteString("k,x\n")
+		rows := 4 + r.Intn(3)
+		distinctKeys := map[int64]bool{}
+		for j := 0; j < rows; j++ {
+			k := ref.Rows[j%len(ref.Rows)] // keys of the inner table, walking through it: the first two are always distinct
+			if j == rows-1 {
+				k = 99 // and one that is not
+			}
+			distinctKeys[k] = true
+			fmt.Fprintf(&outer, "%d,%d\n", k, ref.Rows[r.Intn(len(ref.Rows))]-1+int64(r.Intn(3)))
+		}
+		outerFile, innerFile := filepath.Join(home, "outer.csv"), filepath.Join(home, "inner.csv")
+		os.WriteFile(outerFile, []byte(outer.String()), 0o644)
+		os.WriteFile(innerFile, []byte(ref.csv()), 0o644)
+		c := "r." + ref.Col
+		var q, shape string
+		switch i % 3 {
+		case 0:
+			q, shape = fmt.Sprintf("SELECT o.k, o.x FROM %s o WHERE o.k IN (SELECT %s FROM @R@ r WHERE %s = o.k)", outerFile, c, c), "correlated_in_subquery"
+		case 1:
+			q, shape = fmt.Sprintf("SELECT o.k, o.x, (SELECT %s FROM @R@ r WHERE %s > o.x) AS l FROM %s o", c, c, outerFile), "correlated_select_subquery"
+		default:
+			q, shape = fmt.Sprintf("SELECT o.k, o.x, %s FROM %s o LOOKUP JOIN @R@ r ON %s = o.k", c, outerFile, c), "correlated_lookup_join"
+		}
+		qPlugin, qNative := strings.ReplaceAll(q, "@R@", ref.pluginName()), strings.ReplaceAll(q, "@R@", innerFile)
+		pr, nr := runCLI(cli, env, qPlugin), runCLI(cli, env, qNative)
+		same := pr.Exit == nr.Exit && strings.Join(pr.Rows, "\n") == strings.Join(nr.Rows, "\n")
+		cf.Add("KQuery "+lib.CoqBool(same), map[string]interface{}{"kind": "e2e_correlated_query", "shape": shape, "plugin_query": qPlugin, "native_query": qNative,
+			"outer": outer.String(), "inner": ref, "plugin": pr, "native": nr}, len(distinctKeys) > 2 && len(nr.Rows) > 1)
+		cf.Count("e2e_" + shape)
+		cf.Count(fmt.Sprintf("e2e_correlated_distinct_outer_keys_%d", len(distinctKeys)))
+		if nr.Exit != 0 {
+			cf.Count("e2e_native_query_failed")
+		}
+	}
 }
